@@ -132,3 +132,67 @@ class SignBounded:
         c = challenge_(msg_hash, secp256k1, hashlib.sha256)
         again = dsa.sign_(msg_hash, prv_key)
         return ref.verify(C, c, C.mul(prv_key, C.G), result.r, result.s) and 2 * result.s <= secp256k1.n and again == result
+
+
+# ---------------------------------------------------------------- public key recovery, both arms
+def _gen_recover(rng):
+    C = ref.curve_of(secp256k1)
+    n = secp256k1.n
+    msg_hash = bytes(rng.getrandbits(8) for _ in range(32))
+    from btclib.ecc.rfc6979_nonce import challenge_
+    c = challenge_(msg_hash, secp256k1, hashlib.sha256)
+    k = rng.randrange(1, n)
+    K = C.mul(k, C.G)
+    r = K[0] % n
+    t = rng.random()
+    if t < 0.35 and c:
+        s = c * pow(k, -1, n) % n          # s*K == c*G: one candidate key is the point at infinity
+    elif t < 0.8:
+        q = rng.randrange(1, n)
+        s = pow(k, -1, n) * (c + r * q) % n
+    else:
+        s = rng.randrange(1, n)
+    if s == 0:
+        s = 1
+    return dict(key_id=rng.choice([0, 1, 0, 1, 2, 3, 4, -1]), msg_hash=msg_hash, sig=dsa.Sig(r, s, secp256k1, check_validity=False))
+
+
+@contract("btclib.ecc.dsa.recover_pub_key_", gen=_gen_recover, props="C02 C04", both_arms=True, n_quick=300, n_thorough=6000,
+          rule="honest and arbitrary signatures, 35% steered so that one candidate key is the point at infinity; key ids -1..4")
+class RecoverBounded:
+    """SEC 1 4.1.6 for the candidate the key id names: K = lift(r + (key_id // 2) n, parity
+    key_id & 1), Q = r^-1 (s K - c G); refused -- with the same exception class on both arms --
+    when the key id names no candidate or the abscissa does not lift (ValueError), or Q is the
+    point at infinity (RuntimeError)"""
+
+    def raises_BTClibValueError(key_id, msg_hash, sig):
+        C = ref.curve_of(secp256k1)
+        n = secp256k1.n
+        if not 0 <= key_id <= 3:
+            return True
+        x = sig.r + (key_id // 2) * n
+        return x >= C.p or C.lift_x(x, even=(key_id & 1) == 0) is None
+
+    def raises_BTClibRuntimeError(key_id, msg_hash, sig):
+        # the candidate exists and the key it leads to is the point at infinity
+        from btclib.ecc.rfc6979_nonce import challenge_
+        C = ref.curve_of(secp256k1)
+        n = secp256k1.n
+        c = challenge_(msg_hash, secp256k1, hashlib.sha256)
+        if not 0 <= key_id <= 3 or sig.r + (key_id // 2) * n >= C.p:
+            return False
+        K = C.lift_x(sig.r + (key_id // 2) * n, even=(key_id & 1) == 0)
+        if K is None:
+            return False
+        r1 = pow(sig.r, -1, n)
+        return C.add(C.mul(r1 * sig.s % n, K), C.neg(C.mul(r1 * c % n, C.G))) is None
+
+    def post_sec1(key_id, msg_hash, sig, result):
+        from btclib.ecc.rfc6979_nonce import challenge_
+        C = ref.curve_of(secp256k1)
+        n = secp256k1.n
+        c = challenge_(msg_hash, secp256k1, hashlib.sha256)
+        K = C.lift_x(sig.r + (key_id // 2) * n, even=(key_id & 1) == 0)
+        r1 = pow(sig.r, -1, n)
+        Q = C.add(C.mul(r1 * sig.s % n, K), C.neg(C.mul(r1 * c % n, C.G)))
+        return tuple(result) == tuple(Q)
